@@ -443,9 +443,9 @@ func judge(r *vh.Run, res *result) {
 					later := a.Clock > fl.Ret || (kills == 0 && int32(a.R.DC) > d.DC)
 					if later && a.R.First <= d.Offset && d.Offset <= a.R.Last {
 						sig := "record delivered again after its accept/reject was confirmed without error"
-						// which request carried the acknowledgement? piggybacked on a ShareFetch that came
-						// back without records = the shape in which kfake parks the fetch and loses the
-						// acknowledgement's error code (see checkParkedAckError)
+						// which request carried the acknowledgement? piggybacked on a ShareFetch = the shape in
+						// which kfake can park the fetch and lose the acknowledgement's error code when it
+						// rebuilds the response (see checkParkedAckError); a ShareAcknowledge always reports it
 						for _, b := range blog {
 							if b.Member != m.Name || b.Clock <= f.At || b.Clock >= fl.Ret {
 								continue
@@ -455,7 +455,7 @@ func judge(r *vh.Run, res *result) {
 								covers = covers || (ab.First <= d.Offset && d.Offset <= ab.Last && ab.typeAt(d.Offset) == f.Status)
 							}
 							if covers {
-								if b.Key == 78 && len(b.Acq) == 0 {
+								if b.Key == 78 {
 									sig = sigConfirmedParked
 								}
 								break
@@ -669,6 +669,7 @@ func judge(r *vh.Run, res *result) {
 				pm = "records"
 			}
 		}
+		r.Count("e2e_nontrivial_scenarios", 1)
 		r.Distinct(fmt.Sprintf("e2e|%s|m%d|p%d|b%d|%s|t%s|%s|c%v", mode, pl.Members+pl.Churn, pl.Partitions, pl.Brokers, pm, strings.Join(tk, ""), strings.Join(evs, ","), pl.Compact))
 		if r.WantSample() {
 			r.Sample(map[string]any{"mode": mode, "plan": pl, "deliveries": nd, "broker_requests": len(blog), "ack_types_seen": typesSeen, "events": res.Happened, "faults": res.Fired,
